@@ -1991,6 +1991,12 @@ class Explorer:
         dest, target = t["dest"], t["t"]
         i, clo = clos[0]
         callee = self.F.fns[clo[1]]
+        # what the elements handed to the closure are drawn from: the first non-closure argument (the iterator / collection)
+        src_val = None
+        for j_, a_ in enumerate(args):
+            if j_ != i:
+                src_val = self.deref(st, a_) if a_[0] == "ref" else a_
+                break
         alts = []
         # 0 times
         s0 = st.clone()
@@ -2010,7 +2016,7 @@ class Explorer:
                     # fork: stop here or run again
                     s3 = st2.clone()
                     k3 = ex.clone_stack(stack2)
-                    ex.start_closure(s3, k3, k3[-1], callee, clo, args[i], dest, target, make_cont(remaining - 1, iteration + 1), iteration + 1)
+                    ex.start_closure(s3, k3, k3[-1], callee, clo, args[i], dest, target, make_cont(remaining - 1, iteration + 1), iteration + 1, source=src_val)
                     ex.work.append((s3, k3))
                 ex.opaque_call(st2, fr2, path, args, dest, site, info)
                 if target is None:
@@ -2022,22 +2028,24 @@ class Explorer:
         if self.closure_k >= 1:
             s1 = st.clone()
             k1 = self.clone_stack(stack)
-            self.start_closure(s1, k1, k1[-1], callee, clo, args[i], dest, target, make_cont(self.closure_k - 1, 1), 1)
+            self.start_closure(s1, k1, k1[-1], callee, clo, args[i], dest, target, make_cont(self.closure_k - 1, 1), 1, source=src_val)
             alts.append((s1, k1))
         if not alts:
             self.finish_path(st, None, "diverge")
             return "stop"
         return ("fork", alts)
 
-    def start_closure(self, st, stack, fr, callee, clo, cloarg, dest, target, cont, iteration):
-        # closure parameters are unknown elements supplied by the higher-order function
+    def start_closure(self, st, stack, fr, callee, clo, cloarg, dest, target, cont, iteration, source=None):
+        # closure parameters are unknown elements supplied by the higher-order function; they remember what they were drawn
+        # from (the receiver of the higher-order call, e.g. `set.drain()`), so that rules can tell whose elements they are
         n = callee["argc"]
         cargs = [cloarg]
+        src = self.intern(source) if (source is not None and term_depth(source) > 3) else source
         for j in range(2, n + 1):
             ty = callee["locals"][j]
-            elem = SYM(("elem", clo[1], j, iteration))
+            elem = SYM(("elem", clo[1], j, iteration, src))
             if ty.startswith("&"):
-                obj = ("elem", clo[1], j, iteration)
+                obj = ("elem", clo[1], j, iteration, src)
                 cargs.append(("ref", obj, ()))
             else:
                 cargs.append(elem)
